@@ -463,6 +463,8 @@ type machine struct {
 	pending   map[int][][]byte
 	lastRaw   map[int][]byte
 	delivered map[int]*models.ShardAssignment
+	// the assignment the manager held for a database when it was dropped (until the next delivery; evidence counters only)
+	dropped map[int]*models.ShardAssignment
 	// what the harness last saw persisted for each database (after its last config event; forgotten
 	// when the database is dropped): "existing shards" of a grow are judged against this record
 	lastPersisted map[int]*models.ShardAssignment
@@ -1009,6 +1011,32 @@ var scripts = [][]evStep{
 		{kind: "failover", a: 3}, {"down", 1, 0, 0, nil}, {"up", 2, 0, 0, nil}, {kind: "failover", a: 4, burst: []evStep{{"down", 1, 0, 0, nil}, {"down", 2, 0, 0, nil}, {"down", 3, 0, 0, nil}}},
 		{"up", 2, 0, 0, nil}, {kind: "failover", a: 5}, {"drop", 1, 0, 0, nil}, {"putfail", 1, 0, 0, nil}, {"cfg", 1, 3, 2, nil}, {"up", 1, 0, 0, nil},
 		{kind: "failover", a: 6}, {"up", 3, 0, 0, nil}, {kind: "failover", a: 7}, {"down", 2, 0, 0, nil}, {kind: "failover", a: 8}, {kind: "failover", a: 9}, {"down", 1, 0, 0, nil}},
+	// 15: a database is dropped and created again under the SAME name with the SAME shard count and replica factor
+	// ("recreate"; the random start gives another placement most of the time), several times over, and after each
+	// incarnation every node restarts, once with all nodes down first; limits events of known / unknown databases in between
+	recreateScript(),
+}
+
+func recreateScript() []evStep {
+	evs := []evStep{{"up", 1, 0, 0, nil}, {"up", 2, 0, 0, nil}, {"up", 3, 0, 0, nil}, {"up", 4, 0, 0, nil},
+		{"cfg", 0, 6, 1, nil}, {"cfg", 1, 4, 2, nil}, {"limits", 0, 0, 0, nil}, {"limits", 2, 0, 0, nil}, {"limits", 1, 1, 0, nil},
+		{"down", 1, 0, 0, nil}, {"up", 1, 0, 0, nil}}
+	for round := 0; round < 5; round++ {
+		evs = append(evs, evStep{"recreate", round % 2, 0, 0, nil})
+		if round == 3 { // all replicas of every shard fail, one node comes back first
+			for id := 1; id <= 4; id++ {
+				evs = append(evs, evStep{"down", id, 0, 0, nil})
+			}
+			for id := 4; id >= 1; id-- {
+				evs = append(evs, evStep{"up", id, 0, 0, nil})
+			}
+			continue
+		}
+		for id := 1; id <= 4; id++ {
+			evs = append(evs, evStep{"down", id, 0, 0, nil}, evStep{"up", id, 0, 0, nil})
+		}
+	}
+	return append(evs, evStep{"recreate", 2, 0, 0, nil}, evStep{"cfg", 0, 2, 0, nil}, evStep{"recreate", 0, 0, 0, nil}, evStep{"down", 2, 0, 0, nil}, evStep{"up", 2, 0, 0, nil})
 }
 
 func machineCase(c *core.Ctx, r *rand.Rand) {
@@ -1210,6 +1238,39 @@ func machineCase(c *core.Ctx, r *rand.Rand) {
 			c.Branch("gen-cold-start")
 			continue
 		}
+		if len(exists) > 0 && r.Intn(11) == 0 { // drop + re-create under the same name with the same shard count, then nodes restart
+			var cand []int
+			for x := 0; x < nDB; x++ {
+				if exists[x] {
+					cand = append(cand, x)
+				}
+			}
+			dd := cand[r.Intn(len(cand))]
+			if r.Intn(3) != 0 { // mostly after a restart of some node (a start-up is when ReplicasOnNode is consulted)
+				id := pick(true)
+				evs = append(evs, evStep{"down", id, 0, 0, nil}, evStep{"up", id, 0, 0, nil})
+				live[id] = true
+			}
+			evs = append(evs, evStep{"recreate", dd, 0, 0, nil})
+			pend[dd] = 0
+			for x := 1 + r.Intn(3); x > 0; x-- {
+				id := pick(true)
+				evs = append(evs, evStep{"down", id, 0, 0, nil})
+				if r.Intn(4) == 0 { // another node fails before this one is back
+					id2 := pick(true)
+					delete(live, id2)
+					evs = append(evs, evStep{"down", id2, 0, 0, nil})
+				}
+				evs = append(evs, evStep{"up", id, 0, 0, nil})
+				live[id] = true
+			}
+			nodePend = 0
+			c.Branch("gen-recreate-same-shape")
+			continue
+		}
+		if r.Intn(120) == 0 { // a limits event: never the storage state's business
+			evs = append(evs, evStep{"limits", r.Intn(nDB + 1), r.Intn(2), 0, nil})
+		}
 		if r.Intn(16) == 0 { // the write of the published state fails during a node event; no-op events follow
 			evs = append(evs, evStep{"statefail", 0, 0, 0, nil})
 			if r.Intn(2) == 0 {
@@ -1289,6 +1350,19 @@ func (m *machine) deliver(c *core.Ctx, d int, raw []byte) {
 		return
 	}
 	m.lastRaw[d] = raw
+	if prev := m.dropped[d]; prev != nil && m.delivered[d] == nil {
+		// first payload of a new incarnation of a dropped database (evidence only): a derived view of the
+		// assignments that outlives the drop would answer for the old incarnation here
+		switch {
+		case len(prev.Shards) != len(asg.Shards):
+			c.Branch("recreate-other-shard-count")
+		case showAsg(prev) == showAsg(asg):
+			c.Branch("recreate-same-shard-count-same-placement")
+		default:
+			c.Branch("recreate-same-shard-count-different-placement")
+		}
+		delete(m.dropped, d)
+	}
 	m.delivered[d] = asg
 	m.event(c, fmt.Sprintf("asg %d %s", d, showAsg(asg)), &discovery.Event{Type: discovery.ShardAssignmentChanged,
 		Key: constants.GetDatabaseAssignPath(dbName(d)), Value: raw}, true)
@@ -1415,8 +1489,33 @@ func machineRun(c *core.Ctx, _ *rand.Rand, evs []evStep) {
 		pending: map[int][][]byte{}, lastRaw: map[int][]byte{}, delivered: map[int]*models.ShardAssignment{}, lastPersisted: map[int]*models.ShardAssignment{}}
 	defer func() { m.stopMaster() }()
 	c.Op("reset", "ok")
-	for _, e := range evs {
+	queue := append([]evStep(nil), evs...)
+	for len(queue) > 0 {
+		e := queue[0]
+		queue = queue[1:]
+		if e.kind == "recreate" { // drop + create again under the SAME name with the SAME shard count and replica factor
+			cfg, ok := m.dbs[e.a]
+			if !ok {
+				c.Branch("ev-recreate-unknown-db")
+				continue
+			}
+			c.Branch("ev-recreate-same-shape")
+			queue = append([]evStep{{"drop", e.a, 0, 0, nil}, {"cfg", e.a, cfg.NumOfShard, cfg.ReplicaFactor, nil}}, queue...)
+			continue
+		}
 		switch e.kind {
+		case "limits": // a DatabaseLimitsChanged event (known or unknown database, any payload): the storage state is not its business
+			name := dbName(e.a)
+			val := []byte("maxSeriesPerMetric = 1000\n")
+			if e.b%2 == 1 {
+				val = []byte{0xff, 0x00, '{'}
+			}
+			if _, known := m.dbs[e.a]; known {
+				c.Branch("ev-limits-known-db")
+			} else {
+				c.Branch("ev-limits-unknown-db")
+			}
+			m.noopEvent(c, "noop limits", &discovery.Event{Type: discovery.DatabaseLimitsChanged, Key: constants.GetDatabaseLimitPath(name), Value: val})
 		case "up", "down": // the registration changes and the node watch catches up at once
 			m.regChange(c, e.a, e.kind == "up")
 			m.deliverNode(c, -1)
@@ -1624,6 +1723,12 @@ func machineRun(c *core.Ctx, _ *rand.Rand, evs []evStep) {
 			delete(m.dbs, d)
 			if known {
 				// onDatabaseCfgDelete forgets the database's assignment and shard states
+				if prev := m.delivered[d]; prev != nil {
+					if m.dropped == nil {
+						m.dropped = map[int]*models.ShardAssignment{}
+					}
+					m.dropped[d] = prev // the incarnation that ends here (evidence counters only)
+				}
 				delete(m.delivered, d)
 				c.Branch("ev-drop-db")
 			} else {
